@@ -15,6 +15,8 @@ Record copts := mkCOpts { co_track : list N; co_vehicle : list N; co_tags : list
 Record case := mkCase {
   c_opts : copts; c_vehicle : list N; c_laps : list lap; c_geod : list (list f64);
   c_table : list (list f64 * f64 * f64);
+  c_geod_sane : bool;   (* every oracle distance agrees with the spherical great-circle distance to 1 % + 1 m *)
+  c_sincos45 : bool;    (* some converted fix has a latitude of exactly 45 + 180k degrees (known finding D24) *)
   c_class : nat; c_db : list llap }.
 
 Fixpoint flist_eqb (a b : list f64) : bool :=
@@ -73,6 +75,7 @@ Fixpoint zlist_eqb (a b : list Z) : bool :=
   end.
 
 Definition check (p : proj) (c : case) : verdict :=
+  if negb (c_geod_sane c) then (if c_sincos45 c then VK else VV) else
   let m := (if Nat.leb 2 (co_predict (c_opts c)) then convert_with (oracle_pred (c_table c)) else convert)
              (opts_of (c_opts c)) (s_of_bytes (c_vehicle c)) (c_laps c) (c_geod c) in
   match m, c_class c with
